@@ -110,6 +110,11 @@ func (p prop) RunCase(c *fw.Ctx, rng *fw.RNG, batch, i int) {
 			if k%3 == 0 {
 				typedmon.CheckWrongKind(c, gen, ts, t, tv)
 			}
+			if k == 0 {
+				if _, rp := gen.Proto(t.Name); rp != nil {
+					typedmon.MutatedDecodes(c, "gengo:"+t.Kind, ts, t, rp, rng, &cur)
+				}
+			}
 			if t.Kind == "map" {
 				for _, lvl := range []bool{false, true} {
 					typedmon.CheckRejectedKey(c, gen, ts, t, tv, lvl, rng)
